@@ -418,6 +418,23 @@ Proof.
   exfalso. apply H. apply dt_eqb_eq in Ht. apply il_eqb_eq in Hi. auto.
 Qed.
 
+(* _coerce_output judges a TypedValue by its label and the declared port alone: accepted exactly
+   when the label is the declared one, and then handed on as it is (never relabelled) *)
+Lemma labelled_output_iff_exact t p :
+  (exact t p -> coerce_output (Lab t) p = inr t) /\
+  (~ exact t p -> coerce_output (Lab t) p = inl EOutType \/ coerce_output (Lab t) p = inl EOutInteg) /\
+  (forall t', coerce_output (Lab t) p = inr t' -> t' = t /\ exact t p).
+Proof.
+  split; [|split].
+  - intros [H1 H2]. unfold coerce_output.
+    apply dt_eqb_eq in H1. apply il_eqb_eq in H2. rewrite H1, H2. reflexivity.
+  - intros H. destruct (coerce_output_mislabel t p H) as (e & He). rewrite He.
+    destruct (coerce_output_err _ _ _ He) as [->| ->]; auto.
+  - intros t' H. pose proof (coerce_output_exact _ _ _ H) as Hx. unfold coerce_output in H.
+    destruct (negb (dt_eqb (tv_dt t) (fst p))); [discriminate|].
+    destruct (negb (il_eqb (tv_il t) (snd p))); [discriminate|]. inversion H; subst t'. auto.
+Qed.
+
 Lemma coerce_outputs_exact kv ports : forall j ts,
   coerce_outputs kv j ports = inr ts -> Forall2 exact ts ports.
 Proof.
@@ -1346,6 +1363,47 @@ Proof.
   - destruct H as (HF & _). specialize (Hc _ HF). inversion Hc; subst e'.
     exists e. split; [auto|split; [auto|]]. destruct Hrej as [->|[->| ->]]; reflexivity.
   - contradiction.
+Qed.
+
+(* a relay: an invoked handler hands back, for its declared output port [j] (declared [p]), the value [t]
+   it received on its input port [q] (declared [pin]).  That value is admissible on [q] (it may be
+   labelled above [pin]); having been let in through [q] counts for nothing at the output: unless its
+   label is exactly [p] execute raises -- in particular when [p] is the very port type of [q] and the
+   value is labelled above it -- and a report is possible only if the value's label is exactly [p],
+   hence only from an input port of the same data type and of at most the integrity of [p] *)
+Lemma forwarded_value_proof out calls m r md h kv j p q pin t :
+  execute mods wires handlers enforce ext = (out, calls) ->
+  In (m, r) calls -> nth_error mods m = Some md -> handlers m = Some h -> h r = HRet kv ->
+  nth_error (m_out md) j = Some p -> lookup j kv = Some (Lab t) ->
+  nth_error r q = Some (Some t) -> nth_error (m_in md) q = Some pin ->
+  typed t pin /\
+  (~ exact t p \/ (p = pin /\ tv_il t <> snd pin) ->
+     exists e, out = Raised e /\ output_rejection e /\ wiring_error e = true) /\
+  (forall order runs, out = Report order runs ->
+     exact t p /\ fst pin = fst p /\ il_rank (snd pin) <= il_rank (snd p)).
+Proof.
+  intros E Hin Hmd Hh Hr Hj Hl Hq Hpin.
+  assert (Ht : typed t pin).
+  { destruct (delivered_values_typed_proof _ _ E) as [Hc _].
+    destruct (Hc _ _ Hin) as (md' & Hmd' & Hrow). rewrite Hmd in Hmd'. inversion Hmd'; subst md'.
+    destruct (Forall2_nth_l _ _ _ Hrow _ _ Hq) as (y & Hy & (t' & Ht' & Hty)).
+    rewrite Hpin in Hy. inversion Hy; subst y. inversion Ht'; subst t'. exact Hty. }
+  assert (Hrej : ~ exact t p -> exists e, out = Raised e /\ output_rejection e /\ wiring_error e = true).
+  { intros Hx. eapply mislabelled_output_rejected_proof; eauto. }
+  split; [exact Ht|]. split.
+  - intros [Hx|[-> Hne]]; [auto|]. apply Hrej. intros [_ Hil]. auto.
+  - intros order runs ->.
+    assert (Hx : exact t p).
+    { destruct (labelled_output_iff_exact t p) as (_ & Hbad & _).
+      destruct (dt_eqb (tv_dt t) (fst p)) eqn:Hd.
+      - destruct (il_eqb (tv_il t) (snd p)) eqn:Hi.
+        + apply dt_eqb_eq in Hd. apply il_eqb_eq in Hi. split; auto.
+        + exfalso. destruct Hrej as (e & He & _); [|discriminate].
+          intros [_ Hil]. apply il_eqb_eq in Hil. congruence.
+      - exfalso. destruct Hrej as (e & He & _); [|discriminate].
+        intros [Hdt _]. apply dt_eqb_eq in Hdt. congruence. }
+    split; [exact Hx|]. destruct Hx as [Hx1 Hx2]. destruct Ht as [Ht1 Ht2].
+    split; [congruence|]. rewrite <- Hx2. exact Ht2.
 Qed.
 
 (* no handler is ever invoked twice, whatever the outcome *)
